@@ -13,6 +13,7 @@
 #include "rtrlib/pfx/trie/trie-pfx.c"
 #include "rtrlib/spki/hashtable/ht-spkitable.c"
 
+#define M_MAXREC 1200 /* the bulk responses of C03 hold several hundred records */
 #include "common/cachesim.h"
 #include "common/envx.h"
 #include "common/explore.h"
@@ -34,6 +35,112 @@ static struct spki_table SPKI;
 static struct vset OUTCOMES;
 
 /* ------------------------------------------------------------------ table observation */
+/*
+ * Bulk fillers (C03 --bulk): two groups of numbered records outside the universe, "old" ones the socket holds
+ * before the response under test and "new" ones the response announces; three families each.  Their number
+ * crosses the step of 100 by which the client grows its temporary PDU stores.
+ */
+enum { BF_V4, BF_V6, BF_KEY, BF__N };
+enum { BG_OLD, BG_NEW, BG__N };
+#define BULK_MAX 201
+#define BULK_OLD 101
+struct bulk_obs {
+	int cnt[BG__N][BF__N]; /* fillers present */
+	int top[BG__N][BF__N]; /* highest index present + 1 */
+};
+static struct bulk_obs BOBS; /* filled by sock_mask */
+static bool BULK;
+
+static void bulk_mrec(int grp, int fam, int i, struct mrec *m)
+{
+	memset(m, 0, sizeof(*m));
+	m->src = 0;
+	m->asn = 65100 + i;
+	if (fam == BF_V4) {
+		m->ver = 4;
+		m->a[0] = (grp == BG_OLD ? 0x0b000000u : 0x0c000000u) + ((uint32_t)i << 8);
+		m->len = m->maxlen = 24;
+	} else {
+		m->ver = 6;
+		m->a[0] = 0x20010db8;
+		m->a[1] = (uint32_t)((grp == BG_OLD ? 0x1000 : 0x2000) + i) << 16;
+		m->len = 48;
+		m->maxlen = 64;
+	}
+}
+
+static void bulk_krec(int grp, int i, struct krec *k)
+{
+	memset(k, 0, sizeof(*k));
+	k->asn = 65100 + i;
+	memset(k->ski, grp == BG_OLD ? 0xf0 : 0xf1, SKI_SIZE);
+	k->ski[19] = (uint8_t)i;
+	memset(k->spki, 0x42, SPKI_SIZE);
+	k->spki[0] = (uint8_t)i;
+	k->spki[90] = (uint8_t)(i >> 4);
+	k->src = 0;
+}
+
+static void bulk_put(struct bytes *b, int grp, int fam, int i, uint8_t flags)
+{
+	if (fam == BF_KEY) {
+		struct krec k;
+
+		bulk_krec(grp, i, &k);
+		pdu_router_key(b, 1, flags, k.ski, k.asn, k.spki);
+	} else {
+		struct mrec m;
+
+		bulk_mrec(grp, fam, i, &m);
+		if (fam == BF_V4)
+			pdu_ipv4(b, 1, flags, m.len, m.maxlen, m.a[0], m.asn);
+		else
+			pdu_ipv6(b, 1, flags, m.len, m.maxlen, m.a, m.asn);
+	}
+}
+
+static bool bulk_is_filler_m(const struct mrec *r)
+{
+	uint32_t i = r->asn - 65100;
+
+	if (i >= BULK_MAX)
+		return false;
+	for (int grp = 0; grp < BG__N; grp++) {
+		struct mrec m;
+
+		bulk_mrec(grp, r->ver == 4 ? BF_V4 : BF_V6, (int)i, &m);
+		if (m_same(r, &m)) {
+			int fam = r->ver == 4 ? BF_V4 : BF_V6;
+
+			BOBS.cnt[grp][fam]++;
+			if ((int)i + 1 > BOBS.top[grp][fam])
+				BOBS.top[grp][fam] = (int)i + 1;
+			return true;
+		}
+	}
+	return false;
+}
+
+static bool bulk_is_filler_k(const struct krec *r)
+{
+	uint32_t i = r->asn - 65100;
+
+	if (i >= BULK_MAX)
+		return false;
+	for (int grp = 0; grp < BG__N; grp++) {
+		struct krec k;
+
+		bulk_krec(grp, (int)i, &k);
+		if (k_same(r, &k)) {
+			BOBS.cnt[grp][BF_KEY]++;
+			if ((int)i + 1 > BOBS.top[grp][BF_KEY])
+				BOBS.top[grp][BF_KEY] = (int)i + 1;
+			return true;
+		}
+	}
+	return false;
+}
+
 static unsigned int sock_mask(bool *foreign)
 {
 	static struct m_enum e;
@@ -42,7 +149,10 @@ static unsigned int sock_mask(bool *foreign)
 
 	if (foreign)
 		*foreign = false;
+	memset(&BOBS, 0, sizeof(BOBS));
 	m_enumerate(&PFX, &e);
+	if (e.overflow && foreign)
+		*foreign = true;
 	for (int i = 0; i < e.n; i++) {
 		int j;
 
@@ -53,10 +163,12 @@ static unsigned int sock_mask(bool *foreign)
 				break;
 		if (j < U_NPFX)
 			mask |= 1u << j;
-		else if (foreign)
+		else if (!(BULK && bulk_is_filler_m(&e.r[i])) && foreign)
 			*foreign = true;
 	}
 	k_enumerate(&SPKI, &ke);
+	if (ke.overflow && foreign)
+		*foreign = true;
 	for (int i = 0; i < ke.n; i++) {
 		int j;
 
@@ -67,7 +179,7 @@ static unsigned int sock_mask(bool *foreign)
 				break;
 		if (j < U_NKEY)
 			mask |= 1u << (U_NPFX + j);
-		else if (foreign)
+		else if (!(BULK && bulk_is_filler_k(&ke.r[i])) && foreign)
 			*foreign = true;
 	}
 	return mask;
@@ -1040,6 +1152,10 @@ static void run_cases(void)
 enum { Y_ANN = 0, Y_WD = 1 };
 #define NSYM_REC 14 /* announce / withdraw x 7 universe records */
 enum { Y_FLAGS2 = NSYM_REC, Y_NOTIFY, Y_RESETQ, Y_CRESET, Y_CRESP, Y_BADLEN, Y_ERRPDU, Y_WRONGVER, Y__N };
+/* bulk symbols: announce the first K "new" fillers of a family (K = 100, 101, 201), withdraw all "old" fillers of a family */
+enum { Y_BULK_ANN = 32, Y_BULK_WD = Y_BULK_ANN + 9, Y_BULK_END = Y_BULK_WD + 3 };
+static const int BULK_K[3] = {100, 101, 201};
+static const char *BF_NAME[BF__N] = {"v4", "v6", "key"};
 enum { T_EOD_OK, T_EOD_BADSESSION, T_TIMEOUT, T_TRERR, T_CLOSED, T__N };
 static const char *T_NAME[T__N] = {"eod-ok", "eod-foreign-session", "nothing-then-timeout", "transport-error", "connection-closed"};
 
@@ -1057,6 +1173,7 @@ static struct rpdu R_NEXTQ;
 static bool R_HAVE_NEXTQ;
 static unsigned int R_MASK_AT_NEXTQ;
 static bool R_FOREIGN_AT_NEXTQ, R_X_OK_AT_NEXTQ;
+static struct bulk_obs R_BOBS_AT_NEXTQ;
 
 static void sym_str(struct vbuf *b, int y)
 {
@@ -1065,6 +1182,10 @@ static void sym_str(struct vbuf *b, int y)
 
 	if (y < NSYM_REC)
 		vb_printf(b, "%s %s", y % 2 == Y_ANN ? "announce" : "withdraw", rn[y / 2]);
+	else if (y >= Y_BULK_WD)
+		vb_printf(b, "withdraw all %d old %s fillers", BULK_OLD, BF_NAME[y - Y_BULK_WD]);
+	else if (y >= Y_BULK_ANN)
+		vb_printf(b, "announce %d new %s fillers", BULK_K[(y - Y_BULK_ANN) / 3], BF_NAME[(y - Y_BULK_ANN) % 3]);
 	else
 		vb_puts(b, on[y - NSYM_REC]);
 }
@@ -1115,6 +1236,16 @@ static void put_test_response(struct bytes *b)
 
 		if (y < NSYM_REC) {
 			cache_put_record(b, 1, rec_of(y / 2), y % 2 == Y_ANN ? 1 : 0);
+			continue;
+		}
+		if (y >= Y_BULK_WD) {
+			for (int k = 0; k < BULK_OLD; k++)
+				bulk_put(b, BG_OLD, y - Y_BULK_WD, k, 0);
+			continue;
+		}
+		if (y >= Y_BULK_ANN) {
+			for (int k = 0; k < BULK_K[(y - Y_BULK_ANN) / 3]; k++)
+				bulk_put(b, BG_NEW, (y - Y_BULK_ANN) % 3, k, 1);
 			continue;
 		}
 		switch (y) {
@@ -1168,15 +1299,29 @@ static void put_test_response(struct bytes *b)
 }
 
 /* the reference: apply the PDU sequence to a set; returns validity and the resulting mask */
+static int WANT_BULK[BG__N][BF__N]; /* filled by model_response_from */
+
 static bool model_response_from(int first, unsigned int start, unsigned int *result)
 {
 	unsigned int m = start;
 	bool valid = true;
 
+	for (int f = 0; f < BF__N; f++) {
+		WANT_BULK[BG_OLD][f] = BULK && !RC.kind ? BULK_OLD : 0;
+		WANT_BULK[BG_NEW][f] = 0;
+	}
 	for (int i = first; i < RC.n && valid; i++) {
 		int y = RC.sym[i];
 
-		if (y < NSYM_REC) {
+		if (y >= Y_BULK_WD) {
+			if (WANT_BULK[BG_OLD][y - Y_BULK_WD] != BULK_OLD)
+				valid = false;
+			WANT_BULK[BG_OLD][y - Y_BULK_WD] = 0;
+		} else if (y >= Y_BULK_ANN) {
+			if (WANT_BULK[BG_NEW][(y - Y_BULK_ANN) % 3])
+				valid = false;
+			WANT_BULK[BG_NEW][(y - Y_BULK_ANN) % 3] = BULK_K[(y - Y_BULK_ANN) / 3];
+		} else if (y < NSYM_REC) {
 			int r = rec_of(y / 2);
 
 			if (y % 2 == Y_ANN) {
@@ -1201,6 +1346,22 @@ static bool model_response_from(int first, unsigned int start, unsigned int *res
 static bool model_response(unsigned int start, unsigned int *result)
 {
 	return model_response_from(0, start, result);
+}
+
+/* fillers observed == the given counts, each family's new fillers being exactly the first K */
+static bool bulk_match(const struct bulk_obs *o, const int want[BG__N][BF__N])
+{
+	for (int g = 0; g < BG__N; g++)
+		for (int f = 0; f < BF__N; f++)
+			if (o->cnt[g][f] != want[g][f] || (want[g][f] && o->top[g][f] != want[g][f]))
+				return false;
+	return true;
+}
+
+static void bulk_str(char *out, size_t n, const struct bulk_obs *o)
+{
+	snprintf(out, n, "old v4/v6/key %d/%d/%d new %d/%d/%d", o->cnt[0][0], o->cnt[0][1], o->cnt[0][2], o->cnt[1][0], o->cnt[1][1],
+		 o->cnt[1][2]);
 }
 
 static bool resp_has(int sym)
@@ -1228,6 +1389,10 @@ static void r_client_pdu(const struct rpdu *p)
 		for (int i = 0; i < U_N; i++)
 			if ((0x2b >> i) & 1)
 				cache_put_record(&b, 1, i, 1);
+		if (BULK)
+			for (int f = 0; f < BF__N; f++)
+				for (int k = 0; k < BULK_OLD; k++)
+					bulk_put(&b, BG_OLD, f, k, 1);
 		pdu_eod(&b, 1, SESSION, 5, 3600, 600, 7200);
 		R_PHASE = 1;
 		break;
@@ -1250,6 +1415,7 @@ static void r_client_pdu(const struct rpdu *p)
 		R_NEXTQ.raw = NULL;
 		R_HAVE_NEXTQ = true;
 		R_MASK_AT_NEXTQ = sock_mask(&R_FOREIGN_AT_NEXTQ);
+		R_BOBS_AT_NEXTQ = BOBS;
 		R_X_OK_AT_NEXTQ = x_intact();
 		R_PHASE = 4;
 		env_end_run(PARK_HORIZON);
@@ -1265,7 +1431,7 @@ static int r_recv_data(size_t want, size_t avail, time_t timeout)
 	int c;
 
 	(void)timeout;
-	if (R_PHASE != 3)
+	if (R_PHASE != 3 || BULK) /* bulk responses have hundreds of receive calls: no fault points there */
 		return (int)full;
 	c = ex_choose(5, 1);
 	if (c < 0)
@@ -1303,7 +1469,7 @@ static void run_resp_once(void)
 	ENV.h.client_pdu = r_client_pdu;
 	ENV.h.recv_data = r_recv_data;
 	ENV.h.recv_empty = r_recv_empty;
-	ENV.horizon_calls = 4000;
+	ENV.horizon_calls = BULK ? 40000 : 4000;
 	R_PHASE = 0;
 	R_ESTABLISHED_AFTER = R_FAULTED = R_HAVE_NEXTQ = false;
 	tables_build(0, true);
@@ -1318,10 +1484,19 @@ static void run_resp_once(void)
 	/* ---- oracle */
 	unsigned int start = RC.kind ? 0 : 0x2b, want_mask;
 	bool valid = model_response(start, &want_mask);
-	unsigned int mask = R_HAVE_NEXTQ ? R_MASK_AT_NEXTQ : sock_mask(NULL);
-	bool foreign = R_HAVE_NEXTQ ? R_FOREIGN_AT_NEXTQ : false;
+	bool foreign_now = false;
+	unsigned int mask = R_HAVE_NEXTQ ? R_MASK_AT_NEXTQ : sock_mask(&foreign_now);
+	bool foreign = R_HAVE_NEXTQ ? R_FOREIGN_AT_NEXTQ : foreign_now;
+	struct bulk_obs bobs = R_HAVE_NEXTQ ? R_BOBS_AT_NEXTQ : BOBS;
 	bool xok = R_HAVE_NEXTQ ? R_X_OK_AT_NEXTQ : x_intact();
-	char what[500], key[160];
+	char what[500], key[160], bs[120];
+	static const int bulk_none[BG__N][BF__N];
+	int bulk_before[BG__N][BF__N] = {{0}};
+
+	if (BULK)
+		for (int f = 0; f < BF__N; f++)
+			bulk_before[BG_OLD][f] = BULK_OLD;
+	bulk_str(bs, sizeof(bs), &bobs);
 
 	if (ENV.livelock)
 		rviol("livelock", "more than 400 consecutive environment calls without progress while handling the response");
@@ -1363,6 +1538,12 @@ static void run_resp_once(void)
 			snprintf(key, sizeof(key), "applied-incompletely|%s", RC.kind ? "reload" : "delta");
 			snprintf(what, sizeof(what), "the response succeeded but the socket's records are %#x, expected %#x (previous %#x)", mask, want_mask, start ? start : 0x2b);
 			rviol(key, what);
+		} else if (valid && !bulk_match(&bobs, WANT_BULK)) {
+			snprintf(key, sizeof(key), "applied-incompletely|bulk|%s", RC.kind ? "reload" : "delta");
+			snprintf(what, sizeof(what),
+				 "the response succeeded but of the numbered filler records the socket holds %s; expected old %d/%d/%d new %d/%d/%d", bs,
+				 WANT_BULK[0][0], WANT_BULK[0][1], WANT_BULK[0][2], WANT_BULK[1][0], WANT_BULK[1][1], WANT_BULK[1][2]);
+			rviol(key, what);
 		}
 		if (valid && R_HAVE_NEXTQ && !(R_NEXTQ.type == PT_SERIAL_QUERY && R_NEXTQ.sn == 6 && R_NEXTQ.f16 == SESSION)) {
 			snprintf(what, sizeof(what), "after a successful response ending with End of Data serial 6 the next query is %s serial %u session %u",
@@ -1371,13 +1552,14 @@ static void run_resp_once(void)
 		}
 	} else {
 		V_COUNT("responses_failed", 1);
-		bool intact = mask == 0x2b && !foreign;
-		bool gone = mask == 0 && !foreign;
+		bool intact = mask == 0x2b && !foreign && bulk_match(&bobs, bulk_before);
+		bool gone = mask == 0 && !foreign && bulk_match(&bobs, bulk_none);
 
 		if (!intact && !gone) {
 			snprintf(key, sizeof(key), "partial-effect|%s", RC.kind ? "reload" : "delta");
 			snprintf(what, sizeof(what),
-				 "the response failed but the socket's records are %#x: neither the records from before the response (0x2b) nor empty", mask);
+				 "the response failed but the socket's records are %#x%s%s: neither the records from before the response (0x2b%s) nor empty", mask,
+				 BULK ? ", fillers " : "", BULK ? bs : "", BULK ? ", 101 old fillers per family" : "");
 			rviol(key, what);
 		} else if (R_HAVE_NEXTQ) {
 			bool q_same = RC.kind ? R_NEXTQ.type == PT_RESET_QUERY :
@@ -1401,7 +1583,7 @@ static void run_resp_once(void)
 	{
 		struct vbuf ob = {0};
 
-		vb_printf(&ob, "%d|%x|%d|%d|%u", R_ESTABLISHED_AFTER, mask, R_HAVE_NEXTQ, R_NEXTQ.type, R_HAVE_NEXTQ ? R_NEXTQ.sn : 0);
+		vb_printf(&ob, "%d|%x|%d|%d|%u|%s", R_ESTABLISHED_AFTER, mask, R_HAVE_NEXTQ, R_NEXTQ.type, R_HAVE_NEXTQ ? R_NEXTQ.sn : 0, bs);
 		if (vset_add(&OUTCOMES, v_hash(ob.p, ob.len)))
 			V_COUNT("distinct_outcomes", 1);
 		vb_free(&ob);
@@ -1446,7 +1628,13 @@ static void run_resp_cases(void)
 	int maxn = (int)v_argl("n", 3);
 	bool small = v_flag("small-alphabet"); /* announce/withdraw of v4/v6 present/absent only */
 	static const int small_syms[] = {0, 1, 2, 3, 4, 5, 6, 7, 8, 9};
-	int nsym = small ? 10 : Y__N;
+	/* bulk alphabet: the 12 bulk symbols, announce/withdraw of every universe record, bad flags, a malformed PDU */
+	static const int bulk_syms[] = {Y_BULK_ANN + 0, Y_BULK_ANN + 1, Y_BULK_ANN + 2, Y_BULK_ANN + 3, Y_BULK_ANN + 4, Y_BULK_ANN + 5,
+					Y_BULK_ANN + 6, Y_BULK_ANN + 7, Y_BULK_ANN + 8, Y_BULK_WD + 0,  Y_BULK_WD + 1,	Y_BULK_WD + 2,
+					0,		1,		2,		3,		4,		5,
+					6,		7,		8,		9,		10,		11,
+					12,		13,		Y_FLAGS2,	Y_BADLEN};
+	int nsym = BULK ? (int)(sizeof(bulk_syms) / sizeof(bulk_syms[0])) : small ? 10 : Y__N;
 	long idx = 0;
 	const char *rp = v_arg("replay", NULL);
 	long long only = -1;
@@ -1474,7 +1662,7 @@ static void run_resp_cases(void)
 						RC.n = n;
 						RC.term = term;
 						for (int i = 0; i < n; i++) {
-							RC.sym[i] = small ? small_syms[cc % nsym] : (int)(cc % nsym);
+							RC.sym[i] = BULK ? bulk_syms[cc % nsym] : small ? small_syms[cc % nsym] : (int)(cc % nsym);
 							cc /= nsym;
 						}
 						RC_IDX = idx;
@@ -1496,6 +1684,7 @@ static void worker(void)
 	build_alphabet(v_flag("reduced"));
 	build_semantic();
 	if (!strcmp(PROP, "C03")) {
+		BULK = v_flag("bulk");
 		env_small_thread_stacks();
 		run_resp_cases();
 		return;
